@@ -214,7 +214,8 @@ def RPartial : String → String → Val → Val → Prop := fun tn c v v' =>
   else if tn = "job" ∧ c = "execution_id" then True
   else v' = v
 
-theorem dtUtc_idem (v : Val) : dtUtc (dtUtc v) = dtUtc v := by cases v <;> rfl
+theorem dtUtc_idem (v : Val) : dtUtc (dtUtc v) = dtUtc v := by
+  cases v <;> simp [dtUtc, roundsUp, first4]
 
 theorem rpartial_refl (tn c : String) (v : Val) : RPartial tn c v v := by
   unfold RPartial; split
